@@ -8,7 +8,9 @@ use crate::src::Src;
 
 /// Length of an input sequence relative to the small-run capacity `cap`.
 pub fn gen_len(src: &mut Src, cap: usize) -> usize {
-    match src.below(12) {
+    match src.below(if crate::engine::deep() { 14 } else { 12 }) {
+        12 => 6 * cap + src.below(50),
+        13 => src.range(2 * cap, 4 * cap),
         0 => 0,
         1 => 1,
         2 => src.range(2, 9),
